@@ -126,7 +126,7 @@ func (c *columnEnum) Contains(idx uint32) bool {
 func (c *columnEnum) Snapshot(chunk commit.Chunk, dst *commit.Buffer) {
 	fill, locs := c.chunkAt(chunk)
 	fill.Range(func(idx uint32) {
-		dst.PutString(commit.Put, idx, c.readAt(locs[idx]))
+		dst.PutString(commit.Put, chunk.Min()+idx, c.readAt(locs[idx]))
 	})
 }
 
